@@ -6,6 +6,9 @@ Protocol (one observation per line; identical lines go to the Lean driver Operon
        of core/agent.py are kept (wrapped by a recorder) instead of being replaced by stubs)
   run <pid|u<pid>> <zVerdict|exc> <yVerdict|exc>                        -> <result> ; <stats>
   adv <us> | resetcb | clearcache                                       -> - ; <stats>
+  set gate|cache|ttl|breaker|thr|tmo <value> | set agents 0             -> - ; <stats>
+      a public attribute of the LIVE loop is re-assigned (gate_logic, enable_cache, cache_ttl, enable_circuit_breaker,
+      failure_threshold, recovery_timeout; `agents`: fresh stub objects, same names, to loop.executor / loop.assessor)
   nest <p1> <z1> <y1> <w1> <d1> [<p2> <z2> <y2> <w2> <d2> ...]         -> <result1> | <result2> | ... ; <stats>
       overlapping requests on the CURRENT loop (up to 4 levels): request i is issued with prompt p_i; while its
       executor (w_i = e) / assessor (w_i = a) is being consulted - before that agent spends energy and answers
@@ -285,6 +288,29 @@ class Impl:
             return self.nest(t)
         if t[0] == "adv" and len(t) == 2:
             self.clock.advance_us(int(t[1]))
+            return "- ; " + self.stats()
+        if t[0] == "set" and len(t) == 3:
+            k, v = t[1], t[2]
+            if k == "gate":
+                lp.gate_logic = self.L.GateLogic(v if v in GATES else "and")
+            elif k == "cache":
+                lp.enable_cache = v == "1"
+            elif k == "ttl":
+                lp.cache_ttl = _dt.timedelta(microseconds=int(v))
+            elif k == "breaker":
+                lp.enable_circuit_breaker = v == "1"
+            elif k == "thr":
+                lp.failure_threshold = int(v)
+            elif k == "tmo":
+                lp.recovery_timeout = _dt.timedelta(microseconds=int(v))
+            elif k == "agents":
+                if not self.real:
+                    e, a = Recorder(Stub(EXEC_NAME, self.store, self.T), "z"), Recorder(Stub(ASSESS_NAME, self.store, self.T), "y")
+                    e.n, a.n = self.E.n, self.A.n
+                    self.E, self.A = e, a
+                    lp.executor, lp.assessor = e, a
+            else:
+                return "bad-op"
             return "- ; " + self.stats()
         if t == ["resetcb"]:
             lp.reset_circuit_breaker()
